@@ -9,6 +9,7 @@ import (
 	"strings"
 
 	ucfg "github.com/elastic/go-ucfg"
+	"github.com/elastic/go-ucfg/parse"
 
 	"verif/internal/harness"
 	"verif/internal/model"
@@ -29,7 +30,7 @@ func (check) Cases(tier string) int {
 }
 
 func (check) Rule() string {
-	return "(1) worlds of 1-6 settings (top-level and nested under s.) whose strings are expression trees of depth <= 3 (quick) / 5 over literals (incl. $ } : and blanks, with $ and } at the start, in the middle and at the END of a literal, so escape sequences sit at every position of a string including its last two characters; outside ${} a } is spelled } or $} at random, the respelled text being merged later), references (also with computed names), default/alternative/error operators and escapes, plus typed plain settings (int, uint, float, bool, object, list); every referenced name is placed on a random subset of the layers root / 0-2 Env configs / 0-2 resolvers (incl. zero resolvers), each layer's value naming the layer; the root is built by one merge or by several merges in random order with values overwritten later (late binding). Every expression setting is read through String(), Unpack into interface{} and string fields, and (nested ones) a Child handle, and compared with the model evaluator; resolver call order is monitored. (2) forests (forest.go): 3-6 small source configurations and 1-3 trees over 8 totally ordered names (2 plain values naming their tree, 6 expressions over the names before them, so no cycles); every tree is assembled by 2-6 merges in random order of Go data, of source configurations and of trees built earlier (Merge of a *Config: the same expression gets copied into several trees, in which the names it refers to have different values or are missing), 0-2 resolvers; every tree is read in turn with all the other trees as Env configurations: each setting through String(), Unpack into interface{} / string fields, a Child handle, and the whole tree through one Unpack into a map, compared with an evaluator that expands every expression against the tree it lives in, then the Env configurations most recently added first, then the resolvers. (3) expansion results are data (data.go): one setting built from a template (comma list, bracket list, nested list, object, object of list, plain text, bare) around a carrier that brings a marker text such as ${x}, ${x:oops}, ${x:+oops}, ${x:?oops} (alone or inside a text that is a list itself) into the RESULT of the expansion: an escape in the setting itself, a plain string of the tree, a setting whose own expansion yields the marker, an Env value (Env built without VarExp), a resolver answer under Noop/Env/DefaultConfig; x is defined (canary) or undefined; with or without an extra empty reference that makes the setting a string with expansions. Expected = the resulting text (known by construction) after the documented text->value step (parse.ValueWithConfig); read whole (Unpack into interface{}, whole configuration into a map) and element by element (String with idx, String with a path below the setting). (4) lookup order for names of 2-4 segments (pathblock.go): tree / 0-2 Env / 0-2 resolvers, every layer defines the name (value names the layer), holds a non-object (int, string, bool, float, reference to an int) at a proper prefix of the name, or nothing; read through ${n}, pre-${n}, ${n:d}, ${n:+a}, ${n:?m}, ${${nm}}; expected = the first layer in lookup order that defines the name, a layer with a non-object on the path does not define it. Non-trivial = the read involved at least one reference; distinct = distinct (world or forest + tree read, setting) / distinct data or lookup case."
+	return "(1) worlds of 1-6 settings (top-level and nested under s.) whose strings are expression trees of depth <= 3 (quick) / 5 over literals (incl. $ } : and blanks, with $ and } at the start, in the middle and at the END of a literal, so escape sequences sit at every position of a string including its last two characters; outside ${} a } is spelled } or $} at random, the respelled text being merged later), references (also with computed names), default/alternative/error operators and escapes, plus typed plain settings (int, uint, float, bool, object, list); every referenced name is placed on a random subset of the layers root / 0-2 Env configs / 0-2 resolvers (incl. zero resolvers), each layer's value naming the layer; the root is built by one merge or by several merges in random order with values overwritten later (late binding). Every expression setting is read through String(), Unpack into interface{} and string fields, and (nested ones) a Child handle, and compared with the model evaluator; resolver call order is monitored. (2) forests (forest.go): 3-6 small source configurations and 1-3 trees over 8 totally ordered names (2 plain values naming their tree, 6 expressions over the names before them, so no cycles); every tree is assembled by 2-6 merges in random order of Go data, of source configurations and of trees built earlier (Merge of a *Config: the same expression gets copied into several trees, in which the names it refers to have different values or are missing), 0-2 resolvers; every tree is read in turn with all the other trees as Env configurations: each setting through String(), Unpack into interface{} / string fields, a Child handle, and the whole tree through one Unpack into a map, compared with an evaluator that expands every expression against the tree it lives in, then the Env configurations most recently added first, then the resolvers. (3) expansion results are data (data.go): one setting built from a template (comma list, bracket list, nested list, object, object of list, plain text, bare) around a carrier that brings a marker text such as ${x}, ${x:oops}, ${x:+oops}, ${x:?oops} (alone or inside a text that is a list itself) into the RESULT of the expansion: an escape in the setting itself, a plain string of the tree, a setting whose own expansion yields the marker, an Env value (Env built without VarExp), a resolver answer under Noop/Env/DefaultConfig; x is defined (canary) or undefined; with or without an extra empty reference that makes the setting a string with expansions. Expected = the resulting text (known by construction) after the documented text->value step (parse.ValueWithConfig); read whole (Unpack into interface{}, whole configuration into a map) and element by element (String with idx, String with a path below the setting). (4) lookup order for names of 2-4 segments (pathblock.go): tree / 0-2 Env / 0-2 resolvers, every layer defines the name (value names the layer), holds a non-object (int, string, bool, float, reference to an int) at a proper prefix of the name, or nothing; read through ${n}, pre-${n}, ${n:d}, ${n:+a}, ${n:?m}, ${${nm}}; expected = the first layer in lookup order that defines the name, a layer with a non-object on the path does not define it. Round 4: in (1) one world in three also holds 1-2 expressions nested 1-60 levels below the root (dp.n.n...n.vJ), each with a twin holding the same expression at the top level (read through String, Unpack and a Child handle half way down, and compared with the twin), and every resolver of (1), (2) and (4) answers unknown names either with ErrMissing or with an error of its own (the older resolvers are asked all the same); in (2) every third tree ranks the names in an order of its own, so that the same names refer to each other in opposite directions in two trees (one name being resolved in two trees at once is no cycle; reads in which the model enters the same setting of the same tree twice are C08's business and not compared); in (4) an Env layer may be Env(nil) or the zero Config (holds nothing, is skipped), and a probe demands that an EMPTY resolver answer means the same in the lone reference, in a text and under the three operators. (5) typed twin (typed.go): a value (null, int, uint, float, bool, strings, list, object) directly in the tree and reached by a setting that is exactly one reference (to the setting, through two references, to an Env value, to a resolver answer, as a list element); Unpack of both into 3 of 18 targets (pointers, numbers, pre-set string / interface{}, time.Duration and slices of it, *Config, map, an Unpacker) and one typed getter must have the same outcome. (6) late binding under Merge (latebind.go): a reference ${b} merged ONTO an object / list / primitive / reference / nothing, b (object, list, primitive) defined by the same operand, by the target before, or only later, then changed by a last merge: the setting reads as the current b. Non-trivial = the read involved at least one reference; distinct = distinct (world or forest + tree read, setting) / distinct data, lookup, typed or late-binding case."
 }
 
 func (check) Assumptions() []string {
@@ -40,6 +41,8 @@ func (check) Assumptions() []string {
 		"forests: an expression living in an Env configuration is looked up in that Env configuration first (the tree it lives in), then in the Env configurations of the read, then in the resolvers; the configuration being read is not consulted for it. Cycles (C08) are excluded by construction; values are words that the text->value step leaves alone",
 		"a lone $ not followed by {, $ or } is not generated (the statement only pins down $$ and $})",
 		"data workload: results the text->value step rejects (parse error) are not compared; the text->value step itself is C17's business and is used as the oracle for it",
+		"an empty string answered by a resolver without error: the statement does not say whether the name is then set-and-empty or not found by that resolver; demanded is only that every form (lone reference, text, operators) treats it the same way; the world/forest/lookup resolvers never answer with an empty string",
+		"not demanded (audit round 4): that the text of Error() of a typed getter contains the message m of ${x:?m} - m must be recoverable from the error (text or chain of reasons); the result of a text with expansions taking the documented text->value step (007 -> 7, trimmed blanks, lists) is by design; evaluation time of long chains",
 		"monitored, not judged (the statement does not pin them down): (i) whose PathSep/MaxIdx/EnableNumKeys/EscapePath split a COMPUTED name (${${nm}}): the library uses the options of the read call, literal names were split at creation (monitor read_with_other_pathsep_than_creation); (ii) a name whose value is null under the operators: the library treats null as set and non-empty, rendering it as the text null (monitor null_valued_name_observed)",
 	}
 }
@@ -101,6 +104,53 @@ func genWorld(r *rand.Rand, depth int) *model.World {
 		w.Ress = append(w.Ress, res)
 	}
 	return w
+}
+
+// addDeep adds expressions nested 1..60 levels below the root (dp.n.n...n.vJ),
+// each with a twin holding the same expression at the top level (twJ). The
+// expressions refer to the names of the world, never to each other.
+func addDeep(w *model.World, r *rand.Rand, depth int) map[string]string {
+	deep := map[string]string{}
+	if r.Intn(3) != 0 {
+		return deep
+	}
+	g := model.ExGen{Names: names, Lits: lits, NameExprs: true}
+	for j, c := 0, 1+r.Intn(2); j < c; j++ {
+		ex := g.Gen(r, depth)
+		k := "dp" + strings.Repeat(".n", 1+r.Intn(60)) + fmt.Sprintf(".v%d", j)
+		tw := fmt.Sprintf("tw%d", j)
+		w.Root[k] = &model.Setting{Ex: ex}
+		w.Root[tw] = &model.Setting{Ex: ex}
+		deep[k] = tw
+	}
+	return deep
+}
+
+func boolInt(b bool) int {
+	if b {
+		return 1
+	}
+	return 0
+}
+
+// sameAsTwin: a deeply nested setting reads like the same expression at the
+// top level of the same tree (both are looked up from the root).
+func sameAsTwin(res *harness.R, b *vx.Built, k, tw, desc string) bool {
+	var s1, s2 string
+	var e1, e2 error
+	if p, pv, where := harness.Safe(func() {
+		s1, e1 = b.C.String(k, -1, b.Opts...)
+		s2, e2 = b.C.String(tw, -1, b.Opts...)
+	}); p {
+		res.Violate("panic", "panic %q at %s reading %q; %s", pv, where, k, desc)
+		return false
+	}
+	res.Eval(2)
+	if (e1 == nil) != (e2 == nil) || (e1 == nil && s1 != s2) {
+		res.Violate("deeply-nested-setting-reads-differently-from-the-same-expression-at-top-level", "String(%q) = %q, %v but the same expression at the top level, String(%q) = %q, %v (nested %d levels); %s", k, s1, e1, tw, s2, e2, strings.Count(k, "."), desc)
+		return false
+	}
+	return true
 }
 
 func describe(w *model.World) string {
@@ -200,6 +250,10 @@ func (check) Run(seed int64, tier string, idx int, verbose bool) harness.Result 
 	runData(res, rand.New(rand.NewSource(harness.Mix(seed, "C02-data", idx))), idx, verbose)
 	// fourth workload: non-objects on the path of a name in an earlier layer (pathblock.go)
 	runPathBlock(res, rand.New(rand.NewSource(harness.Mix(seed, "C02-lookup", idx))), idx, verbose)
+	// fifth workload: a single reference reads like the referenced value, for every target type (typed.go)
+	runTyped(res, rand.New(rand.NewSource(harness.Mix(seed, "C02-typed", idx))), idx, verbose)
+	// sixth workload: a reference merged onto an existing value stays late-bound (latebind.go)
+	runLateBind(res, rand.New(rand.NewSource(harness.Mix(seed, "C02-latebind", idx))), idx, verbose)
 	return res.Done()
 }
 
@@ -209,6 +263,7 @@ func runWorld(res *harness.R, r *rand.Rand, tier string, idx int, verbose bool) 
 		depth = 2 + r.Intn(4)
 	}
 	w := genWorld(r, depth)
+	deep := addDeep(w, r, depth)
 	desc := describe(w)
 	var br *rand.Rand
 	if r.Intn(2) == 0 {
@@ -225,6 +280,34 @@ func runWorld(res *harness.R, r *rand.Rand, tier string, idx int, verbose bool) 
 		res.Violate("build-error", "building the config failed: %v; %s", err, desc)
 		return
 	}
+	// the resolvers: one that does not know a name says so with ErrMissing or
+	// fails with an error of its own; either way the name is not found THERE and
+	// the resolvers added earlier are asked
+	var rlog []vx.ResCall
+	b.Opts = append([]ucfg.Option{}, b.Opts[:len(vx.BaseOpts)+len(w.Envs)]...)
+	var missModes []string
+	for i, m := range w.Ress {
+		i, m := i, m
+		ownErr := r.Intn(2) == 0
+		if ownErr {
+			res.Ev("resolvers_failing_with_an_error_of_their_own_for_unknown_names", 1)
+			missModes = append(missModes, fmt.Sprintf("res%d:own-error", i))
+		} else {
+			missModes = append(missModes, fmt.Sprintf("res%d:ErrMissing", i))
+		}
+		b.Opts = append(b.Opts, ucfg.Resolve(func(n string) (string, parse.Config, error) {
+			v, ok := m[n]
+			rlog = append(rlog, vx.ResCall{Idx: i, Name: n, Hit: ok})
+			switch {
+			case ok:
+				return v, parse.NoopConfig, nil
+			case ownErr:
+				return "", parse.NoopConfig, fmt.Errorf("resolver %d has no variable %q", i, n)
+			}
+			return "", parse.NoopConfig, ucfg.ErrMissing
+		}))
+	}
+	desc += fmt.Sprintf(" unknown names answered with %v", missModes)
 	// the same settings once more in another spelling of their escapes (merged
 	// later: the later text is the one that counts)
 	if r.Intn(2) == 0 {
@@ -289,9 +372,16 @@ func runWorld(res *harness.R, r *rand.Rand, tier string, idx int, verbose bool) 
 		if endsInEscape(s.Ex.Render(false)) {
 			res.Ev("settings_ending_in_an_escape_sequence", 1)
 		}
-		b.ResetLog()
+		if tw, ok := deep[k]; ok {
+			res.Ev("settings_nested_more_than_32_levels_read", int64(boolInt(strings.Count(k, ".") > 32)))
+			res.SetAdd("nesting_depth_of_expression", fmt.Sprintf("%d", strings.Count(k, ".")/10*10))
+			if !sameAsTwin(res, b, k, tw, desc) {
+				continue
+			}
+		}
+		rlog = nil
 		compare(res, w, b, k, s, want, mres, cls, desc, verbose)
-		checkResolverOrder(res, b, len(w.Ress), k, desc)
+		checkResolverOrder(res, rlog, len(w.Ress), k, desc)
 	}
 }
 
@@ -350,6 +440,15 @@ func compare(res *harness.R, w *model.World, b *vx.Built, k string, s *model.Set
 				rest := strings.TrimPrefix(k, "ls.")
 				str, err := ch.String(rest, -1, b.Opts...)
 				reads = append(reads, reading{"Child(ls).String()", str, err})
+			}
+		}
+		if strings.HasPrefix(k, "dp.") && !mres.Container {
+			// through a handle half way down
+			parts := strings.Split(k, ".")
+			h := len(parts) / 2
+			if ch, cerr := b.C.Child(strings.Join(parts[:h], "."), -1, b.Opts...); cerr == nil {
+				str, err := ch.String(strings.Join(parts[h:], "."), -1, b.Opts...)
+				reads = append(reads, reading{"Child(half way down).String()", str, err})
 			}
 		}
 		if strings.HasPrefix(k, "s.") && !mres.Container {
@@ -458,8 +557,7 @@ func repeated(e *model.Ex) bool { return false }
 // checkResolverOrder: for consecutive resolver calls with the same name the
 // indices must descend from the most recently added resolver, stopping at the
 // first that knows the name.
-func checkResolverOrder(res *harness.R, b *vx.Built, n int, k, desc string) {
-	log := b.Log()
+func checkResolverOrder(res *harness.R, log []vx.ResCall, n int, k, desc string) {
 	res.Ev("resolver_calls_observed", int64(len(log)))
 	for i := 0; i < len(log); {
 		j := i
